@@ -75,6 +75,7 @@ type rRequest struct {
 	SameErr bool              `json:"sameErr"`
 	SetStatus int             `json:"setStatus"`
 	StopAt string `json:"stopAt"` // the user middleware that answers "do not continue" ("" = none)
+	NilCtx bool   `json:"nilCtx"` // the authorization callback hands back a nil context (with its approval or refusal)
 	// bookkeeping for the trace (not used by the driver)
 	Handler *hHandler `json:"handler,omitempty"`
 	Toks    []string  `json:"toks,omitempty"`
@@ -154,12 +155,20 @@ var (
 	same   bool
 	status int
 	stopAt string
+	nilCtx bool
 )
 
-func Reset(s []bool, f bool, sameErr bool, customStatus int, stop string) {
+func Reset(s []bool, f bool, sameErr bool, customStatus int, stop string, noCtx bool) {
 	mu.Lock()
 	defer mu.Unlock()
-	events, script, calls, fail, same, status, stopAt = nil, s, 0, f, sameErr, customStatus, stop
+	events, script, calls, fail, same, status, stopAt, nilCtx = nil, s, 0, f, sameErr, customStatus, stop, noCtx
+}
+
+// NilCtx reports whether the callback is to hand back a nil context.
+func NilCtx() bool {
+	mu.Lock()
+	defer mu.Unlock()
+	return nilCtx
 }
 
 // MW records that the user-registered middleware called name (e.g. "before#1", "onError#2") ran and answers whether the operation
@@ -252,6 +261,9 @@ var errRefused = &runtime.SecurityError{Message: "refused by script", StatusCode
 // GleeceRequestAuthorization is the user-supplied callback: scripted and recording.
 func GleeceRequestAuthorization(ctx context.Context, engineCtx any, check runtime.SecurityCheck) (context.Context, *runtime.SecurityError) {
 	ok, idx := vrec.Auth(check.SchemaName, check.Scopes)
+	if vrec.NilCtx() {
+		ctx = nil // "no new context": the request keeps the one it has
+	}
 	if ok {
 		return ctx, nil
 	}
@@ -514,6 +526,7 @@ func enumerateRequests(id string, hs []hHandler, tokens map[string][]vToken, ful
 		}
 		r.Case, r.Rid, r.Handler, r.Toks, r.Script, r.Fail, r.Kind = id, len(reqs), h, append([]string{}, toks...), script, fail, kind
 		r.SameErr = kind == "auth-same-error"
+		r.NilCtx = kind == "auth-nil-ctx"
 		if strings.HasPrefix(kind, "mwstop:") {
 			parts := strings.Split(kind, ":")
 			r.StopAt = parts[1]
@@ -569,6 +582,12 @@ func enumerateRequests(id string, hs []hHandler, tokens map[string][]vToken, ful
 		}
 		for _, s := range allScripts(n) {
 			add(h, base, s, false, "auth")
+		}
+		if n >= 1 {
+			// the callback hands back no context, with approvals and refusals alike
+			for _, s := range allScripts(n) {
+				add(h, base, s, false, "auth-nil-ctx")
+			}
 		}
 		if n >= 2 {
 			// every alternative refused with one shared error value (a sentinel), and refused-then-approved with it
@@ -720,6 +739,7 @@ func driverSource(ids []string) string {
 	SameErr bool              ` + "`json:\"sameErr\"`" + `
 	SetStatus int             ` + "`json:\"setStatus\"`" + `
 	StopAt  string            ` + "`json:\"stopAt\"`" + `
+	NilCtx  bool              ` + "`json:\"nilCtx\"`" + `
 }
 
 type result struct {
@@ -833,7 +853,7 @@ func serve(s served, rq request) (res result) {
 			res.Panic = fmt.Sprint(p)
 		}
 	}()
-	vrec.Reset(rq.Script, rq.Fail, rq.SameErr, rq.SetStatus, rq.StopAt)
+	vrec.Reset(rq.Script, rq.Fail, rq.SameErr, rq.SetStatus, rq.StopAt, rq.NilCtx)
 	var body io.Reader
 	if rq.Body != "" {
 		body = strings.NewReader(rq.Body)
